@@ -76,7 +76,19 @@ PROP = {'title': 'Generic operations conserve values: rvalues moved once, lvalue
          'unchanged; lvalue and const lvalue arguments element-wise identical and not moved-from; no read of a moved-from payload; '
          'live-object balance zero after destruction. Compile probes: every entry with rvalue arguments instantiated with the move-only '
          'element type and by-value callbacks (the documented callback signature), one TU per entry.',
- 'assumptions': ['nested elements: std::vector<X> for X in {grid, tree, optional, either, variant, array, tuple, record, strong_typedef, '
+ 'assumptions': [
+                 'audit (over-assertion): the following are recorded as info:* counters and never a verdict, because neither the '
+                 'property nor the documentation promises them: the state of a moved-from child list handed to the tree constructor; '
+                 'how often/whether optional::alternative evaluates its second alternative, optional::make_if its function, '
+                 'either::first_success the functions behind the first success, get_or_insert its create function, tree::map its '
+                 'function per node; the inserted flag of get_or_insert_with_result (its documentation states it the other way round '
+                 'than the code); what options::flag does for equal values (precondition violation); the success/failure of the parse '
+                 'grammars (C02) and which values a parser creates while backtracking; the relative order of equivalent keys in a joined '
+                 'multimap/multiset and the iteration order of unordered_map (compared as multisets); moves of moved-from objects; all move '
+                 'counts. Callbacks decide by the element they receive, never by the number of the call, and expectations follow the '
+                 'documented element order of the result, not the order of callback invocations; no assumption is made about '
+                 'std::vector capacities (vectors are filled up to whatever capacity they have)',
+                 'nested elements: std::vector<X> for X in {grid, tree, optional, either, variant, array, tuple, record, strong_typedef, '
                  'recursive, unique_ptr} over the tracked type is forced to reallocate (push_back/emplace_back at capacity 1,2,3 '
                  '(thorough ..8), container::join with the first vector at capacity in all 9 category combinations and a 3-argument rvalue '
                  'join, map_optional / map_concat / optional::cat producing 2,3,5 (thorough ..9) X): no tracked element may be copied, '
